@@ -472,6 +472,7 @@ def _adopt_loaded(w: World, si: int, loaded, mt, op, owner, trigger, old_groups,
     for mc, rc in pairs:
         mc.uid = uidgen()
         mc.meta = None  # node metadata is not part of what C05/C14 promise
+        mc.nid = None  # neither are node ids
         mc.data = rc.data
         mc.explicit = rc.data_id != hash(rc.data)
         mc.did = rc.data_id
